@@ -221,3 +221,71 @@ func VerifC04C06Controller() {
 }
 
 var _ client.Object = (*corev1alpha1.ObjectSet)(nil)
+
+// VerifC09ObjectSetPaused: a paused ObjectSet keeps being reconciled for status only and reports Paused truthfully,
+// also when phases are delegated.
+func VerifC09ObjectSetPaused() {
+	c := verifk8s.NewClient()
+	cache := verifk8s.NewCache()
+	os := &corev1alpha1.ObjectSet{}
+	os.Name, os.Namespace, os.UID = "me", "ns", "uid-me"
+	os.Generation = 4
+	os.Finalizers = []string{constants.CachedFinalizer}
+	paused := verifrt.Bool("spec.paused")
+	if paused {
+		os.Spec.LifecycleState = corev1alpha1.ObjectSetLifecycleStatePaused
+	}
+	if verifrt.Bool("pre.PausedCondition") {
+		os.Status.Conditions = append(os.Status.Conditions, metav1.Condition{Type: corev1alpha1.ObjectSetPaused, Status: metav1.ConditionTrue, Reason: "Paused"})
+	}
+	remote := verifrt.IntRange("remotePhase", 0, 3) // none | missing | reports paused | reports not paused
+	if remote > 0 {
+		os.Status.RemotePhases = []corev1alpha1.RemotePhaseReference{{Name: "me-p", UID: "uid-phase"}}
+	}
+	if remote >= 2 {
+		p := &corev1alpha1.ObjectSetPhase{}
+		p.Name, p.Namespace = "me-p", "ns"
+		if remote == 2 {
+			p.Status.Conditions = []metav1.Condition{{Type: corev1alpha1.ObjectSetPhasePaused, Status: metav1.ConditionTrue}}
+		}
+		c.Put(p)
+	}
+	c.Put(os)
+	rec := &vReconcilerDouble{}
+	ctl := &GenericObjectSetController{newObjectSet: adapters.NewObjectSet, newObjectSetPhase: newGenericObjectSetPhase, client: c,
+		scheme: vScheme(), reconciler: []reconciler{rec}, dynamicCache: cache, teardownHandler: &vTeardownDouble{}}
+	_, err := ctl.Reconcile(context.Background(), ctrl.Request{NamespacedName: types.NamespacedName{Namespace: "ns", Name: "me"}})
+	verifrt.Assert(err == nil && rec.calls == 1, "C09/paused-objectset-still-reconciled-for-status")
+	var su *verifk8s.Call
+	for k := range c.Calls {
+		if c.Calls[k].Verb == "status-update" {
+			su = &c.Calls[k]
+		}
+	}
+	verifrt.Assert(su != nil, "C09/status-reported")
+	if su == nil {
+		return
+	}
+	st, found := vCondStatus(su.Obj, corev1alpha1.ObjectSetPaused)
+	phasesPaused := paused
+	unknown := false
+	switch remote {
+	case 1:
+		unknown = true
+	case 2:
+		phasesPaused = true
+	case 3:
+		phasesPaused = false
+	}
+	switch {
+	case unknown || paused != phasesPaused:
+		verifrt.Assert(found && st == "Unknown", "C09/paused-unknown-while-phases-disagree")
+		verifrt.Reach("unknown")
+	case paused:
+		verifrt.Assert(found && st == "True", "C09/paused-reported")
+		verifrt.Reach("paused")
+	default:
+		verifrt.Assert(!found, "C09/paused-condition-removed-when-active")
+		verifrt.Reach("active")
+	}
+}
